@@ -16,7 +16,8 @@ EXPLANATION = (
     'by the same (mnemonic, units) predicates in the same order (sibling agreement); the float branch returns '
     'float(value) or the null value; masking with the null value post-dominates conversion; (5) wrapped and '
     'unwrapped assembly: a data line is split on any white space, a wrapped frame is complete exactly at the curve '
-    'count, overflow is refused, the last buffer is flushed on finalise; columns map to channels in curve order.')
+    'count, overflow is refused, the last buffer is flushed on finalise; columns map to channels in curve order; '
+    '(6) the ordinal kept for a header mnemonic is the enumerate() position of its line in the member list (repeated mnemonics stay in the list).')
 NOT_DECIDED = 'that every text of the LAS grammar parses to its content; layout equivalence of results; value typing of every token.'
 ASSUMPTIONS = ['str.split() with no argument splits on runs of blanks and tabs', 'text files are opened with universal newlines']
 TECHNIQUE = 'static analysis: regex-automaton inclusion, who-may-call, sibling predicate agreement, CFG post-dominance, declared-type vs producer check'
